@@ -39,11 +39,14 @@ def summarise_kani(r):
     }
     if r["failed"]:
         out["signature"] = "harness=%s check=%s" % (job.harness, r["failed"][0]["desc"])
+    if r.get("witness_sample"):
+        out["samples"].append({"harness": job.name, "kind": "concrete input reaching the end of the harness (solver model, Kani concrete playback)",
+                               "kani_any_values_in_order": r["witness_sample"]})
     sat = [d for d, s in covers.items() if s == "SATISFIED"]
     if sat:
         out["samples"].append({"harness": job.name, "bounds": job.bounds,
                                "reachability_witnesses_satisfied": sat[:6],
-                               "example_obligation": (reach[-1]["desc"] + " @ " + reach[-1]["loc"]) if reach else ""})
+                               "example_obligations": [c["desc"] + " @ " + c["loc"] for c in reach if kanirun.is_repo_fn(c)][:3]})
     return out
 
 
@@ -213,4 +216,40 @@ reg(Prop(
     bounds_quick="every byte string of length 0..24, symbolic length, symbolic index and symbolic lookup tag",
     bounds_thorough="every byte string of length 0..40",
     outside=["byte strings longer than the bound (messages with more than 3 resp. 5 pairs)", "Cow::Owned storage (same code path; only Borrowed is driven)"],
+))
+
+
+# ---------------------------------------------------------------------------
+# C11 — Rough TLV encode / round trip / rejection set
+
+def c11_layout(n, ctor, timeout=1500, witness=False):
+    cname = {0: "new", 1: "slice", 2: "sorted"}[ctor]
+    allowed = set()
+    if ctor == 2:
+        allowed.add("unsorted input")
+    return Job("tlv", "c11::c11_layout_n%d_%s%s" % (n, cname, "_witness" if witness else ""), timeout=timeout, mem_gb=10,
+               covers=allowed, kind="witness" if witness else "proof",
+               bounds="N=%d pairs, constructor %s, symbolic u32 tags (ties included), value lengths 0..2, symbolic bytes; array sink; MessageView round trip" % (n, cname))
+
+
+def c11_reject(n, ctor):
+    cname = {0: "new", 1: "slice", 2: "sorted"}[ctor]
+    allowed = {"sum overflows usize"} if n < 2 else set()
+    return Job("tlv", "c11::c11_reject_n%d_%s" % (n, cname), timeout=600, mem_gb=4, covers=allowed,
+               bounds="N=%d pairs with value lengths ranging over ALL of usize (length-only value type), constructor %s" % (n, cname))
+
+
+reg(Prop(
+    "C11", "Rough TLV encode, round trip, rejection set",
+    quick=[c11_layout(0, 0, 600), c11_layout(1, 0, 900), c11_layout(2, 0), c11_layout(2, 1), c11_layout(2, 2),
+           c11_layout(2, 1, witness=True),
+           c11_reject(1, 0), c11_reject(2, 0), c11_reject(3, 0), c11_reject(3, 1), c11_reject(2, 2), c11_reject(3, 2)],
+    thorough=[c11_layout(0, 0, 600), c11_layout(1, 0, 900), c11_layout(2, 0), c11_layout(2, 1), c11_layout(2, 2),
+              c11_layout(2, 1, witness=True), c11_layout(3, 0, 2400), c11_layout(3, 1, 2400), c11_layout(3, 2, 2400),
+              c11_reject(1, 0), c11_reject(2, 0), c11_reject(3, 0), c11_reject(3, 1), c11_reject(2, 2), c11_reject(3, 2)],
+    bounds_quick="layout/round trip: N in {0,1,2} pairs (N enumerated per job), arbitrary u32 tags, value lengths 0..2, all three constructors; rejection set: N <= 3 with value lengths over all of usize",
+    bounds_thorough="as quick with N = 3 added for all three constructors",
+    outside=["N > 3 pairs; pair counts above i32::MAX (needs a 2^31-element slice)", "value lengths > 2 in the layout harness (lengths are unbounded in the rejection harness)",
+             "sinks other than the harness array sink in this tier (OwningIovec / hcobs::Encoder sinks are exercised by C03/C01 harness families)",
+             "nested messages and Cow values (thorough extensions, when present in the job list)"],
 ))
